@@ -66,6 +66,8 @@ enum Multiplicity {
     #[default]
     Unknown,
     Known(bool),
+    /// the spectrum is known (normal families)
+    Spectrum(Vec<C>),
     /// decided on demand from the exact integer characteristic polynomial
     FromPoly(Vec<i64>),
     /// decided on demand from the numerical rank (oracle's one-sided Jacobi): nullity >= 2 means the
@@ -75,24 +77,42 @@ enum Multiplicity {
 
 impl Multiplicity {
     fn class(&self) -> &'static str {
-        let m = match self {
-            Multiplicity::Unknown => None,
-            Multiplicity::Known(b) => Some(*b),
-            Multiplicity::FromPoly(c) => Some(orc::has_multiple_root(c)),
+        match self {
+            Multiplicity::Unknown => ":multiplicity-unknown",
+            Multiplicity::Known(true) => ":repeated-eigenvalue",
+            Multiplicity::Known(false) => ":simple-spectrum",
+            Multiplicity::Spectrum(sp) => {
+                let scale = sp.iter().map(|z| orc::cabs(*z)).fold(0.0f64, f64::max).max(1e-300);
+                if (0..sp.len()).any(|i| (0..i).any(|j| orc::cabs((sp[i].0 - sp[j].0, sp[i].1 - sp[j].1)) <= 1e-9 * scale)) {
+                    ":repeated-eigenvalue"
+                } else {
+                    orc::spectrum_class(sp)
+                }
+            }
+            Multiplicity::FromPoly(c) => {
+                if orc::has_multiple_root(c) {
+                    ":repeated-eigenvalue"
+                } else {
+                    let cls = orc::spectrum_class(&orc::roots_dk(&c.iter().map(|x| *x as f64).collect::<Vec<_>>()));
+                    // the real / non-real split is decided exactly (Sturm), the root finder only decides "equimodular"
+                    if cls == ":simple-equimodular-spectrum" {
+                        cls
+                    } else if orc::count_real_roots(c) == 0 {
+                        ":simple-nonreal-spectrum"
+                    } else {
+                        ":simple-spectrum"
+                    }
+                }
+            }
             Multiplicity::FromRank(a) => {
                 let sv = o::singular_values(a);
                 let top = sv.first().copied().unwrap_or(0.0);
                 if sv.iter().filter(|x| **x <= 1e-9 * top).count() >= 2 {
-                    Some(true)
+                    ":repeated-eigenvalue"
                 } else {
-                    None
+                    ":multiplicity-unknown"
                 }
             }
-        };
-        match m {
-            Some(true) => ":repeated-eigenvalue",
-            Some(false) => ":simple-spectrum",
-            None => ":multiplicity-unknown",
         }
     }
 }
@@ -600,8 +620,7 @@ fn family_case(job: &Job) {
     exp.multiple = if let Some(cp) = &c.charpoly {
         Multiplicity::FromPoly(cp.iter().map(|x| *x as i64).collect::<Vec<_>>())
     } else if let Some(sp) = &c.spectrum {
-        let scale = sp.iter().map(|z| orc::cabs(*z)).fold(0.0f64, f64::max).max(1e-300);
-        Multiplicity::Known((0..sp.len()).any(|i| (0..i).any(|j| orc::cabs((sp[i].0 - sp[j].0, sp[i].1 - sp[j].1)) <= 1e-9 * scale)))
+        Multiplicity::Spectrum(sp.clone())
     } else if c.real_sep.is_some() {
         Multiplicity::Known(false)
     } else if c.tags.contains(&"gen_fam_defective") {
